@@ -192,7 +192,7 @@ def parseNode (v : Json) : R GNode := do
 
 def nodeJson (n : GNode) : Json :=
   Json.mkObj [("op", Json.str n.op), ("target", Json.str n.target), ("args", Json.arr (n.args.map argJson).toArray),
-    ("kwargs", Json.arr (n.kwargs.map fun (k, a) => Json.arr #[Json.str k, argJson a]).toArray)]
+    ("kwargs", Json.arr ((n.kwargs.toArray.qsort (fun a b => a.1 < b.1)).toList.map fun (k, a) => Json.arr #[Json.str k, argJson a]).toArray)]
 
 def graphJson (g : Graph) : Json := Json.arr (g.map nodeJson).toArray
 
@@ -206,6 +206,23 @@ def graphCmd (j : Json) : R Json := do
       let fwd ← parseFmt (← jget j "fwd"); let bwd ← parseFmt (← jget j "bwd")
       pure (Json.mkObj [("nodes", graphJson (simulateBackend fwd bwd g))])
   | "identity" => pure (Json.mkObj [("nodes", graphJson g), ("wf", Json.bool (Graph.wellFormed g))])
+  | "unit_scale" =>
+      let user ← match j.getObjVal? "replace" with
+        | .ok v => match v.getArr? with
+          | .ok a => a.toList.mapM fun kv => match kv.getArr? with
+            | .ok #[x, y] => pure ((x.getStr?.toOption.getD ""), (y.getStr?.toOption.getD ""))
+            | _ => .error "bad replace"
+          | .error e => .error e
+        | .error _ => pure []
+      let uct ← match j.getObjVal? "constraint_targets" with
+        | .ok v => match v.getArr? with
+          | .ok a => pure (a.toList.map fun x => x.getStr?.toOption.getD "")
+          | .error e => .error e
+        | .error _ => pure []
+      pure (Json.mkObj [("nodes", graphJson (unitScaleBackend user uct g))])
+  | "tables" => pure (Json.mkObj [
+      ("torch_map", Json.arr (torchMap.map fun (a, b) => Json.arr #[Json.str a, Json.str b]).toArray),
+      ("constraint_targets", Json.arr (constraintTargets.map Json.str).toArray)])
   | p => .error s!"unknown pass {p}"
 
 def parseLrVal (v : Json) : R (Option (LrVal Float)) :=
